@@ -174,7 +174,22 @@ def m_fail(E, fr, args):
 
 # --------------------------------------------------------------------------- memory
 def m_new(E, fr, args):
-    return new_obj(E, args[0], 'new@' + fr.fn.name[:48])
+    base = new_obj(E, args[0], 'new@' + fr.fn.name[:48])
+    if getattr(E, 'watch', None):
+        # lock discipline: a heap object allocated by a member function whose `this` lies inside a watched region (container nodes, bucket
+        # arrays, buffers of values stored in such nodes) belongs to that region
+        size = cint(E, args[0], 'allocation size'); owner = None
+        for f in E.frames:
+            ps = getattr(f.fn, 'pslots', None)
+            if not ps: continue
+            try: v = f.regs[ps[0]]
+            except Exception: continue
+            if isinstance(v, int):
+                for lo, hi, name in E.watch:
+                    if lo <= v < hi: owner = name; break
+            if owner: break
+        if owner: E.watch.append((base, base + max(size, 1), owner))
+    return base
 def m_calloc(E, fr, args):
     return new_obj(E, cint(E, args[0], 'calloc') * cint(E, args[1], 'calloc'), 'calloc')
 def m_delete(E, fr, args):
@@ -552,7 +567,21 @@ def install(E):
             return getattr(E, key)
         return f
     M['_ZNSt3_V215system_categoryEv'] = category_model('system'); M['_ZNSt3_V216generic_categoryEv'] = category_model('generic')
-    M['pthread_mutex_lock'] = m_zero; M['pthread_mutex_unlock'] = m_zero; M['pthread_mutex_trylock'] = m_zero
+    # mutexes: single-threaded execution, so locking always succeeds; which mutexes are held is tracked for the lock-discipline log
+    def m_mutex_lock(E, fr, args):
+        E.held.append(cint(E, args[0], 'mutex')); return 0
+    def m_mutex_unlock(E, fr, args):
+        a = cint(E, args[0], 'mutex')
+        if a in E.held: E.held.remove(a)
+        return 0
+    M['pthread_mutex_lock'] = m_mutex_lock; M['pthread_mutex_unlock'] = m_mutex_unlock; M['pthread_mutex_trylock'] = m_mutex_lock
+    def m_watch(E, fr, args):
+        lo = cint(E, args[0], 'watch'); E.watch.append((lo, lo + cint(E, args[1], 'watch size'), E.read_cstr(args[2]))); return None
+    def m_lock_name(E, fr, args):
+        E.lock_names[cint(E, args[0], 'mutex')] = E.read_cstr(args[1]); return None
+    def m_context(E, fr, args):
+        t = E.read_cstr(args[0]); E.ctx = t if t else None; return None
+    M['verif_watch'] = m_watch; M['verif_lock_name'] = m_lock_name; M['verif_context'] = m_context
     M['pthread_mutex_init'] = m_zero; M['pthread_mutex_destroy'] = m_zero
     M['llvm.stacksave'] = m_zero; M['llvm.stackrestore'] = m_nop
     M['_ZNSaIcEC1Ev'] = m_nop; M['_ZNSaIcEC2Ev'] = m_nop; M['_ZNSaIcED1Ev'] = m_nop; M['_ZNSaIcED2Ev'] = m_nop
